@@ -133,6 +133,21 @@ pub fn spawn(
                                 .expect("ConfirmTransaction serialzation should succeed");
                         }
 
+                        #[cfg(sierradb_verif)]
+                        {
+                            let (hi, lo) = crate::verif::uuid_parts(&transaction_id);
+                            crate::verif::point(
+                                "coordinated",
+                                &[
+                                    partition_id as u64,
+                                    append.first_partition_sequence,
+                                    append.last_partition_sequence,
+                                    hi,
+                                    lo,
+                                    confirmation_count as u64,
+                                ],
+                            );
+                        }
                         if let Some(tx) = reply_sender {
                             tx.send(Ok(append.clone()));
                         }
@@ -223,6 +238,8 @@ async fn run(
     }
 
     let append = database.append_events(transaction.clone()).await?;
+    #[cfg(sierradb_verif)]
+    crate::verif::point("coord.after_local_append", &[transaction.partition_id() as u64]);
 
     // Phase 3: Replica Write Replication
     let expected_partition_sequence =
